@@ -13,6 +13,7 @@ func c08(c *h.Ctx) {
 	runWorkers(c, workerOpts{Mode: "stage", Shards: 8, Timeout: 15 * time.Minute})
 	runWorkers(c, workerOpts{Mode: "stage", Race: true, Shards: 8, Timeout: 15 * time.Minute, Anchors: anchors})
 	c08cli(c)
+	c08nested(c)
 }
 
 func init() { checks["C08"] = checkDef{"exploration", c08} }
